@@ -56,8 +56,20 @@ Definition num_big64 (x : num) : bool :=
             | Some fl => (2^64 <=? fl) || (fl <? - 2^64)
             | None => false end
   end.
-Definition obj_path (f : fmt) (a : arr) : bool :=
-  existsb num_big64 (arr_nums a) || (64 <=? nw f).
+(* the `_use_pyint` decision of set_val (objects.py, after the 64-bit fix): the old
+   test on the unscaled values, or — for integer inputs other than uint64 and an integer
+   conversion factor — the factor or the scaled magnitude reaching 2^63 *)
+Definition conv_factor_int (f : fmt) (raw : bool) : option Z :=
+  if raw then Some 1 else if 0 <=? nf f then Some (2^(nf f)) else None.
+Definition num_abs_int (x : num) : Z :=
+  match num_int x with Some z => Z.abs z | None => 0 end.
+Definition obj_path (f : fmt) (raw : bool) (a : arr) : bool :=
+  existsb num_big64 (arr_nums a) || (64 <=? nw f) ||
+  match conv_factor_int f raw, a with
+  | Some k, AI64 l => (2^63 <=? k) || existsb (fun z => 2^63 <=? Z.abs z * k) l
+  | Some k, AObj l => (2^63 <=? k) || existsb (fun x => 2^63 <=? num_abs_int x * k) l
+  | _, _ => false
+  end.
 
 (* val.astype(original_vdtype) on the non-object path (objects.py:851) *)
 Definition astype_vd (a : arr) (vd : vdt) : outcome (list num) :=
@@ -108,13 +120,11 @@ Definition overflow_elem (f : fmt) (o : omode) (is_obj : bool) (x : num) : outco
       else if elem_lt x (cmin f) then Ok (cmin f)
       else if is_obj then elem_to_int x else elem_to_code x
   | Wrap =>
-      bind (if 64 <=? nw f then elem_to_int x
+      (* utils.wrap: Python integers for wide words and for object arrays, int64 otherwise *)
+      bind (if (64 <=? nw f) || is_obj then elem_to_int x
             else match x with
-                 | NI z => if is_obj && negb (fits_i64 z) then Exc OverflowError else Ok z
-                 | NF v => if is_obj then (match num_int x with
-                                           | Some z => if fits_i64 z then Ok z else Exc OverflowError
-                                           | None => Exc OverflowError end)
-                           else of_option (astype_i64 v) end)
+                 | NI z => Ok z
+                 | NF v => of_option (astype_i64 v) end)
            (fun z => Ok (wrap_model (sg f) (nw f) z))
   end.
 
@@ -147,7 +157,7 @@ Definition elem_pipe (f : fmt) (r : rmode) (o : omode) (raw is_obj : bool) (x : 
    exception is reported when several elements fail in different stages.) *)
 Definition set_val_real (f : fmt) (r : rmode) (o : omode) (raw : bool) (a : arr) (vd : vdt)
   : outcome wres :=
-  let is_obj := obj_path f a in
+  let is_obj := obj_path f raw a in
   bind (if is_obj then Ok (arr_nums a) else astype_vd a vd) (fun vals =>
   bind (mapM (elem_pipe f r o raw is_obj) vals) (fun rs =>
   Ok {| w_codes := map e_code rs; w_ovf := existsb e_gt rs; w_unf := existsb e_lt rs;
